@@ -658,3 +658,69 @@ def locals_addressed_in(fn, call):
             if t is not None and t.k == "DeclRefExpr" and t.dk == "local" and t.did:
                 out.append(t.did)
     return out
+
+
+ALLOC_SIZE_ARG = {"malloc": [0], "memalign": [1], "aligned_alloc": [1], "posix_memalign": [2], "valloc": [0], "realloc": [1]}
+
+
+def check_zeroed_alloc(ctx, P, fname, rule, what, why, file=None):
+    """Every variable-sized allocation in `fname` (an object with a trailing array) is zero-filled over its whole size: it comes from
+    calloc, or from malloc / memalign / posix_memalign followed -- on every path to a successful return -- by memset(p, 0, n) with n equal
+    to the allocated size (compared as access paths and by evaluation at two sample points)."""
+    fn = P.fn(fname, file) if file else P.fn(fname)
+    o = ctx.ob(rule, fn, "%s are zero-filled: the variable-sized object is allocated by calloc, or memset to 0 over the full allocated size" % what, why)
+    allocs = [c for c in fn.calls() if c.callee in ALLOC_SIZE_ARG or c.callee == "calloc"]
+    var = []
+    for a in allocs:
+        args = fn.args(a)
+        if a.callee == "calloc":
+            if any(x.cv is None for x in args[:2]):
+                var.append(a)
+            continue
+        sz = args[ALLOC_SIZE_ARG[a.callee][0]] if len(args) > ALLOC_SIZE_ARG[a.callee][0] else None
+        if sz is not None and sz.cv is None:
+            var.append(a)
+    if not var:
+        raise AnalysisBroken("%s: no variable-sized allocation found" % fname)
+    bad = None
+    params = {p["did"]: 3 + 4 * i for i, p in enumerate(fn.params)}
+
+    def sample(k):
+        def atom(n):
+            if n.k == "ImplicitCastExpr" and n.ck == "LValueToRValue":
+                m = strip(n)
+                if m is not None and m.k == "DeclRefExpr" and m.dk == "param" and m.did in params:
+                    return params[m.did] + k
+            return None
+        return atom
+    rets = [r for r in fn.returns() if r.kids and strip(r.kids[0]) is not None and strip(r.kids[0]).cv != 0]
+    for a in var:
+        if a.callee == "calloc":
+            continue
+        sz = fn.args(a)[ALLOC_SIZE_ARG[a.callee][0]]
+        ok = False
+        for m in fn.calls(("memset", "__builtin_memset", "__builtin___memset_chk", "bzero")):
+            margs = fn.args(m)
+            if m.callee == "bzero":
+                n2 = margs[1] if len(margs) > 1 else None
+            else:
+                if len(margs) < 3 or margs[1].cv != 0:
+                    continue
+                n2 = margs[2]
+            if n2 is None:
+                continue
+            same = fn.key(sz, True) == fn.key(n2, True)
+            if not same:
+                try:
+                    same = all(ev(fn, sz, sample(k)) == ev(fn, n2, sample(k)) for k in (0, 5))
+                except Unevaluable:
+                    same = False
+            if not same:
+                continue
+            e_ok = forced_edges(fn, atom_from([(lambda x, a=a: x is a, 0 if a.callee == "posix_memalign" else 4096)]))     # the allocation succeeded
+            if all(fn.find_path(a, lambda x, r=r: x is r, barrier=lambda x, m=m: x is m, edge_ok=e_ok) is None for r in rets):
+                ok = True
+        if not ok:
+            bad = bad or ("the object allocated by `%s` is not zero-filled over its whole size (%s) before it is returned" % (a.text[:60], sz.text[:40]), a)
+    o.check(bad is None, "%d variable-sized allocation(s), all zero-filled" % len(var), bad[0] if bad else None, site=bad[1] if bad else None,
+            construct="trailing array not zero-initialised")
